@@ -6,6 +6,7 @@ import (
 	"sort"
 	"strconv"
 	"strings"
+	"sync/atomic"
 
 	"github.com/EliCDavis/jbtf"
 	"github.com/EliCDavis/polyform/generator/artifact"
@@ -20,7 +21,7 @@ import (
 type Instance struct {
 	typeFactory *refutil.TypeFactory
 
-	movelVersion uint32
+	movelVersion atomic.Uint32
 	nodeIDs      map[nodes.Node]string
 	metadata     *sync.NestedSyncMap
 	producers    map[string]nodes.NodeOutput[artifact.Artifact]
@@ -31,19 +32,17 @@ func New(typeFactory *refutil.TypeFactory) *Instance {
 	return &Instance{
 		typeFactory: typeFactory,
 
-		nodeIDs:      make(map[nodes.Node]string),
-		metadata:     sync.NewNestedSyncMap(),
-		producers:    make(map[string]nodes.NodeOutput[artifact.Artifact]),
-		movelVersion: 0,
+		nodeIDs:   make(map[nodes.Node]string),
+		metadata:  sync.NewNestedSyncMap(),
+		producers: make(map[string]nodes.NodeOutput[artifact.Artifact]),
 	}
 }
 func (i *Instance) ModelVersion() uint32 {
-	return i.movelVersion
+	return i.movelVersion.Load()
 }
 
 func (i *Instance) incModelVersion() {
-	// TODO: Make thread safe
-	i.movelVersion++
+	i.movelVersion.Add(1)
 }
 
 func (i *Instance) NodeInstanceSchema(node nodes.Node) schema.NodeInstance {
